@@ -3,6 +3,7 @@
 mod cluster2;
 mod explore;
 mod fam_clusterelect;
+mod fam_remoteactor;
 mod fam_lifecycle;
 mod fam_mailbox;
 mod tdrv;
@@ -59,6 +60,7 @@ fn main() {
         fam_mailbox::dispatch,
         fam_lifecycle::dispatch,
         fam_clusterelect::dispatch,
+        fam_remoteactor::dispatch,
     ];
     for f in fams {
         if let Some(summary) = f(&cmd, &a) {
